@@ -6,6 +6,13 @@ pub fn run_stream(out: &mut Out, prop: &str, rng: &mut Rng, n: u64) {
     for k in 0..n {
         let mut case = gen_router_case(rng);
         if k < 2 { case.hops = vec![(0, false), (0, true)]; case.donate = [0; 3]; } // corpus: the revisit witness shape
+        if k == 2 && prop == "C15" {
+            // corpus: a 2-hop route A -> B -> C whose hops have a spread of about 1.9 % each, sent with max_spread 2.5 %: within the limit on every hop
+            case.hops = vec![(0, false), (1, false)]; case.donate = [0; 3];
+            case.liq = [(1_000_000_000, 1_000_000_000), (1_000_000_000, 1_000_000_000), (1_000_000_000, 1_000_000_000)];
+            case.fees = [(DEC / 1000, 2 * DEC / 1000, 0); 3];
+            case.offer = 20_000_000; case.max_spread = Some(DEC / 40); case.min_receive = None; case.cw20_c = false;
+        }
         // choose a minimum_receive around the unconstrained outcome (C15)
         let base = match run_router(&case) { Some(r) => r, None => { out.count("router:deploy_failed"); continue } };
         if prop == "C15" {
